@@ -613,11 +613,11 @@ PROPS = {
     'C03': dict(lean_modules=['SfxProps.C03'], bins=['conv'], profiles=['rel'], gen=gen_C03),
     'C04': dict(lean_modules=['SfxProps.C04'], bins=['conv'], profiles=['chk', 'rel'], gen=gen_C04),
     'C05': dict(lean_modules=['SfxProps.C05'], bins=['conv'], profiles=['chk', 'rel'], gen=gen_C05),
-    'C12': dict(lean_modules=['SfxProps.C12'], bins=['math'], profiles=['chk', 'rel'], gen=gen_C12),
+    'C12': dict(lean_modules=['SfxProps.C12', 'SfxProps.C12Tan'], bins=['math'], profiles=['chk', 'rel'], gen=gen_C12),
     'C13': dict(lean_modules=['SfxProps.C13'], bins=['math'], profiles=['rel'], gen=gen_C13, oracle=True),
     'C14': dict(lean_modules=['SfxProps.C14'], bins=['math'], profiles=['rel'], gen=gen_C14, oracle=True),
     'C15': dict(lean_modules=['SfxProps.C15'], bins=['math'], profiles=['rel'], gen=gen_C15, oracle=True),
-    'C16': dict(lean_modules=['SfxProps.C16'], bins=['math'], profiles=['rel'], gen=gen_C16, oracle=True),
+    'C16': dict(lean_modules=['SfxProps.C16', 'SfxProps.C16Acc'], bins=['math'], profiles=['rel'], gen=gen_C16, oracle=True),
     'C17': dict(lean_modules=['SfxProps.C17'], bins=['math'], profiles=['rel'], gen=gen_C17),
     'C08': dict(lean_modules=['SfxProps.C08'], bins=['text'], profiles=['chk', 'rel'], gen=gen_C08),
     'C09': dict(lean_modules=['SfxProps.C09'], bins=['text'], profiles=['chk', 'rel'], gen=gen_C09),
